@@ -22,6 +22,7 @@ package checks
 import (
 	"context"
 	"fmt"
+	"os"
 	"sort"
 	"strings"
 	"testing"
@@ -45,7 +46,7 @@ type c01ev struct {
 
 func (e c01ev) String() string { return fmt.Sprintf("%s@%d", e.Type, e.Gen) }
 
-var c01recipes = []string{"none", "none", "R1b-reader-parked-after-reset", "R4b-namespace-added-after-flag", "R1-reader-parked-after-copy", "R2-event-parked-after-flag-read", "R3-second-reader-while-locked", "R4-namespace-added-during-unlock", "R5-event-parked-after-cache-update", "R6-slow-consumer", "ns-scope-changes", "R7-initial-add-lags-behind-view", "R8-namespace-list-held-during-unlock"}
+var c01recipes = []string{"none", "none", "R1b-reader-parked-after-reset", "R4b-namespace-added-after-flag", "R1-reader-parked-after-copy", "R2-event-parked-after-flag-read", "R3-second-reader-while-locked", "R4-namespace-added-during-unlock", "R5-event-parked-after-cache-update", "R6-slow-consumer", "ns-scope-changes", "R7-initial-add-lags-behind-view", "R8-namespace-list-held-during-unlock", "R9-shared-informer-and-namespace-recreated"}
 
 func TestC01(t *testing.T) {
 	e := vlib.GetEnv()
@@ -53,8 +54,13 @@ func TestC01(t *testing.T) {
 	vlib.RunCases(t, "C01", "events", n, func(c *vlib.Case) vlib.Result {
 		var res vlib.Result
 		recipe := c01recipes[c.Index%len(c01recipes)]
-		opts := map[string]bool{"watch-faults": c.Index%7 == 6, "no-dynamic-ns": true}
-		if recipe == "ns-scope-changes" || strings.HasPrefix(recipe, "R4") || strings.HasPrefix(recipe, "R8") {
+		// every seventh round over the recipes runs with watch faults (independent of the recipe index: with 14
+		// recipes "index%7" would pin the faults to two fixed recipes and never judge their completeness clause)
+		opts := map[string]bool{"watch-faults": (c.Index/len(c01recipes))%7 == 3, "no-dynamic-ns": true}
+		if recipe == "R9-shared-informer-and-namespace-recreated" {
+			opts["watch-faults"] = false
+		}
+		if recipe == "ns-scope-changes" || strings.HasPrefix(recipe, "R4") || strings.HasPrefix(recipe, "R8") || strings.HasPrefix(recipe, "R9") {
 			opts["no-dynamic-ns"] = false
 		}
 		kc := genKCase(c.Rng, opts)
@@ -65,6 +71,9 @@ func TestC01(t *testing.T) {
 		if rec.Inconclusive != "" {
 			res.Inconclusive = rec.Inconclusive
 			return res
+		}
+		if os.Getenv("VERIF_DUMP") != "" {
+			fmt.Fprintln(os.Stderr, "DUMP", recipe, "\n"+rec.describe())
 		}
 		c01validate(&res, rec, recipe, opts["watch-faults"])
 		for a := range rec.Armed {
@@ -117,6 +126,20 @@ func c01shape(kc *kcase, recipe string, rng interface{ IntN(int) int }) {
 			return r
 		}
 		kc.Pre, kc.Between, kc.Mid = clean(kc.Pre), nil, nil
+	case "R9-shared-informer-and-namespace-recreated":
+		// two bindings whose informers for namespace dyn1 are one shared informer: the first selects dyn1 by
+		// namespace label (and starts the shared informer), the second names dyn1; dyn1 is deleted and
+		// re-created later: the second binding must keep receiving events
+		b.SelShape, b.Sel = "ns-labels", vlib.KSel{NsLabels: map[string]string{"watch": "yes"}}
+		b.Jq, b.Queue = "", ""
+		second := kbind{Hook: kc.Hooks[0].Rel, Name: "static", SelShape: "ns-names", Sel: vlib.KSel{NsNames: []string{"dyn1"}}, OnSync: true, KeepFull: true}
+		kc.Hooks[0].Binds = append(kc.Hooks[0].Binds[:1], second)
+		kc.Hooks[0].SyncFail = 0
+		kc.Hooks = kc.Hooks[:1]
+		kc.Pre = []kop{{Op: "put", Ns: "dyn1", Name: "a", Lbl: map[string]string{"sel": "x"}}}
+		kc.Between, kc.Mid = nil, nil
+		kc.Post = []kop{{Op: "put", Ns: "dyn1", Name: "a", Lbl: map[string]string{"sel": "y"}}, {Op: "ns-delete", Ns: "dyn1"}, {Op: "put", Ns: "dyn1", Name: "r9", Lbl: map[string]string{"sel": "x"}}, {Op: "put", Ns: "dyn1", Name: "r9", Lbl: map[string]string{"sel": "y"}}, {Op: "delete", Ns: "dyn1", Name: "r9"}}
+		return
 	case "R7-initial-add-lags-behind-view":
 		b.SelShape, b.Sel = "all-namespaces", vlib.KSel{}
 		if rng.IntN(2) == 0 {
@@ -383,6 +406,8 @@ func c01recipe(recipe string, kc *kcase) (install, drive, steady func(sys *vlib.
 			gate.Release()
 			sys.Settle(100)
 		}
+	case "R9-shared-informer-and-namespace-recreated":
+		install = func(sys *vlib.Sys, rec *krecord) { rec.Armed[recipe] = true }
 	case "R6-slow-consumer":
 		// the single events consumer is slow: the capacity-1 channel back-pressures the informers
 		install = func(sys *vlib.Sys, rec *krecord) {
@@ -581,13 +606,14 @@ func c01validate(res *vlib.Result, rec *krecord, recipe string, faults bool) {
 				if inV {
 					_, k, _ = vc.StateByGen(key, vGen)
 				} else {
+					// The view did not show the object: it was taken at some point at which the object was absent.
+					// The latest such point that may still precede the view is the last absent state that was not
+					// written at steady state (steady-state writes are issued after the start-up has settled, i.e.
+					// definitely after the view): everything after it is a "later change".
 					for i := range h {
-						if !present[i] {
+						if !present[i] && !c01afterView(rec.PhaseOf[h[i].Gen]) {
 							k = i
 						}
-					}
-					if !b.OnSync && k < 0 {
-						k = -1
 					}
 				}
 				// expected fired events after index k. States written before the informer's own list
@@ -662,6 +688,12 @@ func c01validate(res *vlib.Result, rec *krecord, recipe string, faults bool) {
 			}
 		}
 	}
+}
+
+// c01afterView: writes of this phase are issued after the start-up (and with it every Synchronization) has
+// settled.
+func c01afterView(phase string) bool {
+	return strings.HasPrefix(phase, "steady-state") || strings.Contains(phase, "steady state")
 }
 
 func c01viewDesc(in bool, gen int) string {
